@@ -7,6 +7,12 @@ hook_shas = [l.split()[0] for l in hooks_commits if l.split(' ',1)[1].startswith
 
 # property id -> (engine, technique, level text, level note, design_ref)
 CHECKS = {
+ 'C11': ('hist', 'explicit-state exploration of histories; every distinct state is saved as CBOR and loaded again; complete internal dump (H1) and public observation compared',
+         'Every distinct store state of the history exploration (incl. gaps after removals) is saved with to_file(*.cbor) and loaded with shrink_to_fit off and on; the complete internal dump (all vectors, id maps, every reverse-index entry, position indices), the abstract content, the reverse-lookup self-consistency, index sizes and a battery of queries must be identical; plus a value sweep over all DataValue types incl. NaN/infinity and sub-second datetimes.',
+         'Bounded depth and alphabet. protect_text states are covered by C18.', 'DESIGN.md section 4 C11'),
+ 'C15': ('hist', 'explicit-state exploration of histories; every distinct state is saved as STAM CSV and loaded again; abstract content compared with values as text and offsets as absolute ranges',
+         'Every distinct store state of the history exploration (depth 3 quick / 4 thorough) is written with to_file(*.store.stam.csv) and read back; resources, keys, data ids and value text, annotation order, ids, target kinds, referenced items, absolute ranges of all offsets and data references must be identical (value types and alignment are outside the claim); plus the value sweep.',
+         'Bounded depth and alphabet (ids never contain the ; separator).', 'DESIGN.md section 4 C15'),
  'C05': ('hist', 'explicit-state exploration of histories; every distinct state is round-tripped through STAM JSON (pretty, compact, @include stand-off files) and compared item by item; plus an exhaustive value/identifier sweep',
          'Every distinct store state reached by the history exploration (incl. gaps after removals, id-less items, all selector kinds, range-compressed complex selectors, multi-byte text) is serialised and reloaded; resources, datasets, keys, typed values, annotation order, ids, target kinds, referenced items, offsets and alignment and data references must be identical, and the second serialisation byte-identical. Shallow states are additionally laid out as stand-off files. A sweep round-trips one store per value of all DataValue types and per awkward string used as value / key id / data id / annotation id.',
          'Bounded depth and alphabet; sub-store (@include of stores) level is not covered yet. Id-less items are compared by rank.', 'DESIGN.md section 4 C05'),
